@@ -31,7 +31,19 @@ def load(rel):
     return _cache[p]
 
 
+_mask_cache = {}
+
+
 def mask(text):
+    if len(text) > 20000:
+        k = (len(text), hash(text))
+        if k not in _mask_cache:
+            _mask_cache[k] = _mask(text)
+        return _mask_cache[k]
+    return _mask(text)
+
+
+def _mask(text):
     """Same-length copy of text with comments, string and char literals blanked
     (newlines kept) so that brace matching and regex anchoring ignore them."""
     out = list(text)
@@ -530,20 +542,30 @@ class CClass:
                     chars[i] = ' '
             elif mt[i] == '}':
                 if d >= 2:
-                    chars[i] = ' '
+                    chars[i] = ';' if d == 2 else ' '   # a nested block ends: statement separator at class scope
                 d -= 1
             elif d >= 2 and chars[i] != '\n':
                 chars[i] = ' '
         body = ''.join(chars)[o + 1:]
-        for m in re.finditer(r'(?m)^[ \t]*(?:mutable\s+)?([\w:<>\*\s,]+?)\s+((?:\w+(?:\[[^\]]*\])?\s*(?:\{[^}]*\})?\s*,\s*)*\w+(?:\[[^\]]*\])?)\s*(?:\{[^}]*\}|=[^;]*)?;', body):
-            ty = re.sub(r'\b(public|private|protected)\s*:', '', m.group(1)).strip()
-            if ty.startswith(('return', 'using', 'typedef', 'friend', 'static', 'delete', 'goto')) or '(' in ty:
+        # class-scope statements, one at a time (a single regex over the whole class backtracks catastrophically)
+        pos = 0
+        for st in re.split(r'[;{}]', body):
+            start = pos
+            pos += len(st) + 1
+            st = re.sub(r'\b(public|private|protected)\s*:', ' ', st)
+            st = re.sub(r'=[^,]*$', '', st.strip())           # trailing initialiser
+            if not st or '(' in st or len(st) > 300:
+                continue
+            m = re.match(r'(?s)(?:mutable\s+)?(.*?[\w>\*&])\s*((?:[\*&]?\s*\b\w+\s*(?:\[[^\]]*\])?\s*,\s*)*[\*&]?\s*\b\w+\s*(?:\[[^\]]*\])?)$', st)
+            if not m:
+                continue
+            ty = ' '.join(m.group(1).split())
+            if ty.split()[0] in ('return', 'using', 'typedef', 'friend', 'static', 'delete', 'goto', 'enum', 'struct', 'class', 'template', 'typename'):
                 continue
             for decl in m.group(2).split(','):
-                d = re.sub(r'\{[^}]*\}', '', decl).strip()
-                nm = re.match(r'(\w+)(\[[^\]]*\])?', d)
-                if nm and nm.group(1) in names:
-                    found.append((ty, nm.group(1), nm.group(2) or '', m.start()))
+                nm = re.match(r'\s*([\*&]?)\s*(\w+)\s*(\[[^\]]*\])?', decl)
+                if nm and nm.group(2) in names:
+                    found.append((ty + nm.group(1), nm.group(2), nm.group(3) or '', start))
         got = [f[1] for f in found]
         for n in names:
             if got.count(n) != 1:
